@@ -313,6 +313,9 @@ type LoadExtension struct {
 
 // Assemble implements the Instruction Assemble method.
 func (a LoadExtension) Assemble() (RawInstruction, error) {
+	if a.Num < 0 || a.Num >= -extOffset {
+		return RawInstruction{}, fmt.Errorf("invalid extension %d", a.Num)
+	}
 	if a.Num == ExtLen {
 		return assembleLoad(RegA, 4, opAddrModePacketLen, 0)
 	}
